@@ -8,6 +8,9 @@ SPEC = {
     'jobs': [
         {'bin': 'c03', 'sub': 'static', 'shards': 16, 'env': {'GODEBUG': 'clobberfree=0'}},
         {'bin': 'c03', 'sub': 'dynamic', 'shards': 16, 'max_restarts': 20},
+        # "if a faithful trampoline cannot be built the apply must fail and leave both unchanged": the placeholder
+        # capacity boundary (the sub-check is shared with C14, whose neighbour clause it also decides)
+        {'bin': 'c03', 'shards': 16, 'sub': 'capacity', 'env': {'GODEBUG': 'clobberfree=0'}},
     ],
     'rule': 'static: cases = functions x placeholder offsets, function bytes and extent taken with goom\'s own GetFuncSize from an in-memory copy of the ELF .text; refusals (error/panic) are legal and counted; distinct_nontrivial = distinct instruction-form sequences of accepted prefixes (+ dynamic probes during which the stack moved). '
             'dynamic: probes = shapes x args x descend depth n x pad variant k, one fresh goroutine each; frame sizes measured at run time on a pre-grown stack; the set of distinct stack offsets is reported and a gap makes the run exhaustive:false.',
